@@ -609,20 +609,26 @@ func (a *asset) consolidateAsset(logger *slog.Logger) error {
 		// This is not an integral number of milliseconds, so we should drop this asset
 		return fmt.Errorf("cannot match loop duration %d for asset %s rep %s", a.LoopDurMS, a.AssetPath, refRep.ID)
 	}
-	badPreEncrypted := false
+	badDuration := false
 	for _, rep := range a.Reps {
-		if rep.ContentType != refRep.ContentType && !rep.PreEncrypted {
-			continue
-		}
 		repDurMS := 1000 * rep.duration() / rep.MediaTimescale
-		if repDurMS != a.LoopDurMS {
+		sameDur := rep.duration()*refRep.MediaTimescale == refRep.duration()*rep.MediaTimescale
+		if rep.ContentType == "audio" && refRep.ContentType != "audio" {
+			if !rep.PreEncrypted {
+				continue // audio is re-segmented to follow the reference
+			}
+			sameDur = repDurMS == a.LoopDurMS // cannot be re-segmented: same duration in ms
+		}
+		// All other representations are looped with the reference loop duration,
+		// so their duration must be exactly the same
+		if !sameDur {
 			logger.Warn("Duration differs", "representation", rep.ID, "referenceRepresentation", refRep.ID, "refDurMS",
 				a.LoopDurMS, "repDurMS", repDurMS)
-			badPreEncrypted = true
+			badDuration = true
 		}
 	}
-	if badPreEncrypted {
-		return fmt.Errorf("pre-encrypted representations do not all have same duration")
+	if badDuration {
+		return fmt.Errorf("representations do not all have same duration")
 	}
 	return nil
 }
